@@ -2,7 +2,7 @@
 
 Wire half (decided by the specification): spec/WireWrite.tla -- writers x chunks under muWrite, invariant
 "the stream is a concatenation of whole packets", refuted without the mutex; real concurrent callers
-(Publish QoS 0/1, Subscribe, Unsubscribe, Ping) plus inbound QoS 1/2 traffic that makes the reader
+(Publish QoS 0/1/2, Subscribe, Unsubscribe, Ping) plus inbound QoS 1/2 traffic that makes the reader
 goroutine write acknowledgements, over a transport that delivers every Write in 1-3 byte chunks with
 yields and does NOT serialise Write calls; TLC parses the byte stream the broker side received and
 checks it is exactly the multiset of whole packets produced (spec/TraceWire.tla).
@@ -22,7 +22,7 @@ import vlib  # noqa: E402
 import retry_family as rf  # noqa: E402
 
 PID = "C10"
-OPS = "01sug"
+OPS = "012sug"
 
 
 def wire_scenarios(tier, rng):
@@ -34,7 +34,7 @@ def wire_scenarios(tier, rng):
         out.append({"id": "w%d" % i, "callers": callers, "inbound": rng.randint(0, 4), "chunk": rng.choice([1, 1, 2, 3]), "extra": i % 3 == 0})
     # large packets (tens of KiB, beyond any internal buffering or splitting threshold) next to small writers and acknowledgements
     for j in range(6 if tier == "quick" else 60):
-        callers = ["L" + rng.choice(["", "L", "0"]), "L", rng.choice(["0101", "s0g1", "1g1g"]), rng.choice(["g0g0", "0s0u"])]
+        callers = ["L" + rng.choice(["", "L", "0"]), "L", rng.choice(["0101", "s0g1", "1g1g", "2121"]), rng.choice(["g0g0", "0s0u", "2g2u"])]
         out.append({"id": "wl%d" % j, "callers": callers, "inbound": rng.randint(2, 6), "chunk": rng.choice([512, 1024, 4096]), "extra": False})
     return out
 
@@ -53,16 +53,24 @@ def race_where(text):
     if len(accesses) < 2:
         return "?", True
     inner = []
-    lib = True
+    direct = 0      # accesses whose innermost frame is library code
+    onbehalf = 0    # accesses inside harness code that the library called with its own buffer (Transport.Read/Write, handler)
     for fr in accesses[:2]:
         top = fr[0] if fr else "?"
-        if "github.com/at-wat/mqtt-go." not in top:
+        if "github.com/at-wat/mqtt-go." in top:
+            direct += 1
+        else:
             # an access inside the standard library counts for whoever called it
             caller = next((f for f in fr if "at-wat/mqtt-go." in f or f.startswith(("main.", "verifharness/"))), "?")
-            if "at-wat/mqtt-go." not in caller:
-                lib = False
+            if "at-wat/mqtt-go." in caller:
+                direct += 1
+            elif any("at-wat/mqtt-go." in f for f in fr):
+                onbehalf += 1
             top = caller
         inner.append(re.sub(r"\.func\d+(\.\d+)*$", "", top.split("mqtt-go.")[-1]))
+    # the library's race: both accesses in library code, or one in library code and the other in a transport /
+    # handler method the library invoked (it reads or fills the buffer the library handed over)
+    lib = direct == 2 or (direct == 1 and onbehalf == 1)
     return " <-> ".join(sorted(inner)), lib
 
 
@@ -136,7 +144,11 @@ def run(tier):
         # application-side concurrency on the retrying client: Handle / Ping / sample (Client, Err, Done) while requests run
         for s in rsc:
             s["reqs"] = s["reqs"] + [{"k": "handle", "h": 1, "at": "conn"}, {"k": "sample", "at": "conn"}]
-        for fam, lst, conc in (("wire", wsub, 1), ("retry", rsc, 2)):
+        # concurrent requests whose acknowledgements arrive back to back (what the reader hands to a waiter must not be
+        # shared with the next acknowledgement it parses)
+        import c07_acks
+        asc = [{"id": "ab%d" % bi, "batch": b} for bi, b in enumerate(vlib.chunks(c07_acks.bursts(tier, rng), 6))]
+        for fam, lst, conc in (("wire", wsub, 1), ("retry", rsc, 2), ("acks", asc, 2)):
             for x in run_race(rbin, fam, lst, conc):
                 race_runs += 1
                 if "crash" in x and "DATA RACE" in x["crash"]:
